@@ -5,7 +5,7 @@
 # Prints one summary line; exit 0 iff all three hold.
 set -u
 ID="$1"; N="$2"; ROUND="${3:-1}"
-if [ "$ROUND" = 7 ]; then WT="/tmp/w7_$ID"; DIR="/tmp/s7_$ID/change$N"; elif [ "$ROUND" = 6 ]; then WT="/tmp/w6_$ID"; DIR="/tmp/s6_$ID/change$N"; elif [ "$ROUND" = 5 ]; then WT="/tmp/w5_$ID"; DIR="/tmp/s5_$ID/change$N"; elif [ "$ROUND" = 4 ]; then WT="/tmp/w4_$ID"; DIR="/tmp/s4_$ID/change$N"; elif [ "$ROUND" = 3 ]; then WT="/tmp/w3_$ID"; DIR="/tmp/s3_$ID/change$N"; elif [ "$ROUND" = 2 ]; then WT="/tmp/w2_$ID"; DIR="/tmp/s2_$ID/change$N"; else WT="/tmp/wt_$ID"; DIR="/tmp/seed_$ID/change$N"; fi
+if [ "$ROUND" = 8 ]; then WT="/tmp/w8_$ID"; DIR="/tmp/s8_$ID/change$N"; elif [ "$ROUND" = 7 ]; then WT="/tmp/w7_$ID"; DIR="/tmp/s7_$ID/change$N"; elif [ "$ROUND" = 6 ]; then WT="/tmp/w6_$ID"; DIR="/tmp/s6_$ID/change$N"; elif [ "$ROUND" = 5 ]; then WT="/tmp/w5_$ID"; DIR="/tmp/s5_$ID/change$N"; elif [ "$ROUND" = 4 ]; then WT="/tmp/w4_$ID"; DIR="/tmp/s4_$ID/change$N"; elif [ "$ROUND" = 3 ]; then WT="/tmp/w3_$ID"; DIR="/tmp/s3_$ID/change$N"; elif [ "$ROUND" = 2 ]; then WT="/tmp/w2_$ID"; DIR="/tmp/s2_$ID/change$N"; else WT="/tmp/wt_$ID"; DIR="/tmp/seed_$ID/change$N"; fi
 export CARGO_NET_OFFLINE=true
 cd "$WT" || exit 2
 git checkout -q -- . && git clean -fdq -e target
